@@ -401,3 +401,36 @@ def no_edge_identity_collections(ctx, prog, rid, prefixes, consequence):
     if n:
         ctx.ok(rid, "edge-identity", "%d bodies: no container keyed by an Edge, no dedup/unique over edges" % n)
     return n
+
+
+def adjacency_entry_targets_agree(ctx, prog, flows, rid, consequence):
+    """add_to_adjacency_vec keeps, in the row of one endpoint, an entry that points to the OTHER endpoint.  It builds such
+    entries at several places (push for a new pair, replacement of the cached weight) and searches the row by the same
+    target; all of these sites must name the target through the same parameter(s) -- a site that uses another one
+    stores an entry pointing elsewhere (for the mirrored update of an undirected edge: at the node itself)."""
+    ctx.rule(rid, "every entry built and every search made by add_to_adjacency_vec names its target position through the same parameter(s)")
+    h = prog.one("creation::add_to_adjacency_vec")
+    bodies = [h] + list(prog.closures_of(h.path))
+    provs = []
+    for b in bodies:
+        fl = flows.of(b)
+        for t in b.calls():
+            if t.callee and t.callee.short.endswith("AdjacentNode::new") and t.args:
+                sl = flows.slice(b.path, fl._op_reads(t.args[0]), up=True, down=False, data_only=True, roots=(h.path,))
+                ps = frozenset(h.local_name(n[1]) or "arg%d" % n[1] for (bp, n) in sl if bp == h.path and n[0] in ("L", "LF") and isinstance(n[1], int) and 1 <= n[1] <= h.arg_count)
+                provs.append((ps, "AdjacentNode::new", t))
+        # comparisons of an entry's node_index with the target (the search)
+        for s in b.stmts():
+            if s.k == "assign" and s.rv.k == "binop" and s.rv.j["op"] in ("Eq", "Ne"):
+                descs = [fl.describe(o, depth=6) for o in s.rv.ops]
+                if any(isinstance(d, tuple) and d[0] == "place" and d[1].endswith("node_index") and "." in d[1] for d in descs):
+                    other = [o for o, d in zip(s.rv.ops, descs) if not (isinstance(d, tuple) and d[0] == "place" and d[1].endswith(".node_index"))]
+                    for o in other:
+                        sl = flows.slice(b.path, fl._op_reads(o), up=True, down=False, data_only=True, roots=(h.path,))
+                        ps = frozenset(h.local_name(n[1]) or "arg%d" % n[1] for (bp, n) in sl if bp == h.path and n[0] in ("L", "LF") and isinstance(n[1], int) and 1 <= n[1] <= h.arg_count)
+                        provs.append((ps, "search", s))
+    if not ctx.floor(rid, "target_sites", len(provs), 2):
+        return
+    sets = {p for (p, _, _) in provs}
+    ctx.require(len(sets) == 1, rid, "targets-agree", "all %d sites name the target through %s" % (len(provs), sorted(next(iter(sets))) if len(sets) == 1 else "?"),
+                "the sites of add_to_adjacency_vec disagree about the target position: %s -- " % sorted((k, sorted(p)) for (p, k, _) in provs) + consequence, loc_str(h.span))
